@@ -172,7 +172,8 @@ class Sites:
 class Run:
     """One controlled execution of run_function_on_graph."""
 
-    def __init__(self, uj_rfg, sites, chooser, pause_in_fn=True):
+    def __init__(self, uj_rfg, sites, chooser, pause_in_fn=True, opcodes=True):
+        self.opcodes = opcodes
         self.rfg = uj_rfg
         self.sites = sites
         self.sched = Sched(chooser)
@@ -192,7 +193,7 @@ class Run:
     def tracer(self, frame, event, arg):
         if frame.f_code.co_filename != self.sites.file:
             return None
-        frame.f_trace_opcodes = True
+        frame.f_trace_opcodes = self.opcodes
         return self.local
 
     def local(self, frame, event, arg):
@@ -439,6 +440,22 @@ def pct_chooser(rng, nthreads_hint=8, depth=3, horizon=3000):
             if cur in prio:
                 prio[cur] = state["low"]
         return max(names, key=lambda n: prio[n])
+    return ch
+
+
+def deviation_chooser(deviations, record):
+    """Default schedule = keep running the current thread; when it blocks or exits, the first runnable one.
+    `deviations`: {decision index: option index} - at those decision points another option is taken.
+    `record`: list receiving, per decision point, (number of options, index of the default option)."""
+    state = {"i": 0}
+
+    def ch(names, cur, must):
+        i = state["i"]
+        state["i"] = i + 1
+        default = names.index(cur) if (not must and cur in names) else 0
+        record.append((len(names), default))
+        k = deviations.get(i)
+        return names[k] if k is not None and k < len(names) else names[default]
     return ch
 
 
